@@ -906,6 +906,20 @@ def ce1(ctx, R):
         R.check(ok, "reader._deduplicate_array::candidate returned only when equal", dd.where(r.ast),
                 "an existing array replaces the new one only under an element-wise equality test",
                 "an existing array is returned without an element-wise equality test")
+    # a block slice whose upper bound does not move with the block:  for off in range(0, n, B): ... a[off:B] ...
+    # (for every block after the first the slice is empty - or shrinking - so those elements are never compared)
+    for lp in [n for n in walk_body(ae.node) if isinstance(n, ast.For) and isinstance(n.target, ast.Name)]:
+        it = lp.iter
+        if not (isinstance(it, ast.Call) and call_name(it) == "range" and len(it.args) == 3):
+            continue
+        lv_, step = lp.target.id, it.args[2]
+        for sl in [x for b_ in lp.body for x in ast.walk(b_) if isinstance(x, ast.Subscript) and isinstance(x.slice, ast.Slice)]:
+            lo, hi = sl.slice.lower, sl.slice.upper
+            if isinstance(lo, ast.Name) and lo.id == lv_ and hi is not None and not any(isinstance(y, ast.Name) and y.id == lv_ for y in ast.walk(hi)) \
+                    and unparse(hi) == unparse(step):
+                R.violation("reader._array_equal::block slice", ae.where(sl), "`%s` starts at the block's offset but ends at the block SIZE, not at offset + size: from the second block on "
+                            "the slice is empty, so only the first %s elements are ever compared and arrays that differ later are taken to be equal" % (unparse(sl)[:60], unparse(step)))
+                break
     # _array_equal: the block loop covers ceil(len / chunk_size) blocks
     for n in walk_body(ae.node):
         if isinstance(n, ast.Assign) and isinstance(n.targets[0], ast.Name) and isinstance(n.value, ast.BinOp) \
